@@ -132,7 +132,10 @@ Proof. exact prun_atomic. Qed.
 (** REFUTED in full (finding F19): a gossip head 19 parks between the two halves of
     setLocalHead; caller 1 learns 20; the sync loop stores 18..20 and empties
     pending; caller 2 returns 20; the parked call resumes and pending.Add(19) makes
-    19 the local head; caller 3, started after caller 2 returned, returns 19. *)
+    19 the local head; caller 3, started after caller 2 returned, returns 19.
+    Since /repo 77026ec the next run of sync() drops the stale entry (the local
+    head is 20 again, Example ex_f19_recovers), so the regression lasts until the
+    sync loop, woken by the same setLocalHead, has run - not forever as before. *)
 Theorem C19_monotone_refuted :
   exists p tv s sched1 sched2 p1 t1 p2 t2 a b va vb,
     prun p tv (pinit s) sched1 = (p1, t1) /\ prun p tv p1 sched2 = (p2, t2) /\
@@ -249,6 +252,13 @@ Example ex_history :
      SvSyncDone;
      SvHead (HIn 5 GFail ([], false) (TOk None) ([], false))])) = [5; 5; 9; 9].
 Proof. vm_compute. reflexivity. Qed.
+
+(* finding F19, and its end: after the late pending.Add the local head is 19; one run of sync() restores 20 *)
+Example ex_f19_recovers :
+  let '(p1, _) := prun rf_p rf_tv (pinit rf_s) (rf_sched1 ++ [PGossipB (TOk None)]) in
+  let '(p2, _) := prun rf_p rf_tv p1 [PEv CSyncDone] in
+  local_head (c_s (p_c p1)) = Some (rf_h 19) /\ local_head (c_s (p_c p2)) = Some (rf_h 20).
+Proof. vm_compute. split; reflexivity. Qed.
 
 Print Assumptions C19_monotone_seq.
 Print Assumptions C19_recent_no_traffic.
